@@ -31,6 +31,7 @@ import numpy as np
 
 from . import c20_catalog as cat
 
+HDF_LAST_ENTRY_IS_A_CLAUSE = False   # see Replayer.observe_hdf_last
 KIND_OF = {"NoneType": "none", "SimpleCache": "simple", "MemoryFullCache": "mem", "HDF5Cache": "hdf"}
 
 
@@ -104,11 +105,15 @@ class Child:
     """A separate interpreter that unpickles what the parent pickled and sends it back pickled again:
     the object crosses a process boundary the way it does under the spawn start method."""
 
-    def __init__(self):
+    def __init__(self, hash_seed=None):
         self.p = None
+        self.hash_seed = hash_seed
 
     def start(self):
         env = dict(os.environ)
+        if self.hash_seed is not None:
+            # another interpreter does not iterate sets of strings / symbols in the parent's order
+            env["PYTHONHASHSEED"] = str(self.hash_seed)
         verif = str(Path(__file__).resolve().parents[2])
         env["PYTHONPATH"] = os.pathsep.join([p for p in (env.get("PYTHONPATH", ""), verif) if p])
         self.p = subprocess.Popen([sys.executable, "-m", "harness.checks.c20_child"], stdin=subprocess.PIPE,
@@ -138,6 +143,28 @@ class Child:
                 self.p.wait(20)
             except Exception:  # noqa: BLE001
                 self.p.kill()
+
+
+class Children:
+    """Interpreters with DIFFERENT string-hash seeds (the parent runs with PYTHONHASHSEED=0 for determinism;
+    a new session, a spawned worker or a job scheduler draws another one), used in rotation."""
+
+    SEEDS = (1, 2, 3)
+
+    def __init__(self):
+        self.children = [Child(s) for s in self.SEEDS]
+        self.n = 0
+
+    def roundtrip(self, blob, probe=None):
+        c = self.children[self.n % len(self.children)]
+        self.n += 1
+        ans = c.roundtrip(blob, probe)
+        ans["hash_seed"] = c.hash_seed
+        return ans
+
+    def close(self):
+        for c in self.children:
+            c.close()
 
 
 class ChildError(Exception):
@@ -251,7 +278,7 @@ class DiscAdapter:
             ents = self.entries(obj)
             nout, njac = sum(1 for e in ents if e.outputs), sum(1 for e in ents if e.jacobian)
         st = obj.execution_statistics
-        a = {"kind": KIND_OF.get(type(c).__name__, type(c).__name__),
+        a = {"kind": KIND_OF.get(type(c).__name__, type(c).__name__), "last": self.last_point(obj),
              "nout": nout, "njac": njac,
              "len": 0 if c is None else len(c),
              "ne": st.n_executions, "nl": st.n_linearizations,
@@ -262,6 +289,28 @@ class DiscAdapter:
         else:
             a["dflt"] = 0
         return a
+
+    def point_of(self, data):
+        xi = next((i + 1 for i, val in enumerate(self.e.xvals) if self.e.xname in data and same(data[self.e.xname], val)), -1)
+        if self.e.pname is None:
+            return xi, 0
+        pi = next((i for i, val in enumerate(self.e.pvals) if self.e.pname in data and same(data[self.e.pname], val)), -1)
+        return xi, pi
+
+    def last_point(self, obj):
+        """(has, point) of cache.last_entry - the entry a warm-started consumer starts from."""
+        c = obj.cache
+        if c is None:
+            return None
+        try:
+            e = c.last_entry
+        except Exception:  # noqa: BLE001
+            if type(c).__name__ == "HDF5Cache":
+                return None   # a stale index pointing into a node the other world cleared (D11): not observable
+            raise
+        if not e.inputs:
+            return (False, (0, 0))
+        return (True, self.point_of(e.inputs))
 
     def local_point(self, obj):
         """(x index, default index) read back from the last local data, -1 when it is no catalogue value."""
@@ -297,6 +346,11 @@ class DiscAdapter:
             "cache": {"class": type(c).__name__, "tolerance": None if c is None else c.tolerance,
                       "name": None if c is None else c.name},
         }
+        if c is not None and (with_cache or type(c).__name__ != "HDF5Cache") and self.last_point(obj) is not None:
+            e = c.last_entry
+            out["cache"]["last_entry"] = {"in": {k: frozen(v) for k, v in e.inputs.items()},
+                                          "out": {k: frozen(v) for k, v in e.outputs.items()},
+                                          "jac": sorted((o, i) for o, row in (e.jacobian or {}).items() for i in row)}
         if with_cache and c is not None:
             out["cache"]["entries"] = [
                 {"in": {k: frozen(v) for k, v in e.inputs.items()}, "out": {k: frozen(v) for k, v in e.outputs.items()},
@@ -402,7 +456,7 @@ class FunctionAdapter(PlainAdapter):
         obj.force_real = bool(v)
 
     def abstract(self, obj):
-        return {"kind": "none", "nout": 0, "njac": 0, "len": None, "ne": None, "nl": None, "dflt": 0,
+        return {"kind": "none", "last": None, "nout": 0, "njac": 0, "len": None, "ne": None, "nl": None, "dflt": 0,
                 "sett": 1 if obj.force_real else 0}
 
     def concrete(self, obj, with_cache=True):
@@ -435,7 +489,7 @@ class SpaceAdapter(PlainAdapter):
 
     def abstract(self, obj):
         cur = obj.get_current_value()
-        return {"kind": "none", "nout": 0, "njac": 0, "len": None, "ne": None, "nl": None,
+        return {"kind": "none", "last": None, "nout": 0, "njac": 0, "len": None, "ne": None, "nl": None,
                 "dflt": next((i for i, val in enumerate(self.e.pvals) if same(cur, val)), -1),
                 "sett": 1 if obj.name == "space1" else 0}
 
@@ -476,7 +530,7 @@ class ProblemAdapter(PlainAdapter):
         db = obj.database
         f = obj.objective.name
         items = list(db.items())
-        return {"kind": "mem", "nout": sum(1 for _, o in items if f in o), "njac": sum(1 for _, o in items if "@" + f in o),
+        return {"kind": "mem", "last": None, "nout": sum(1 for _, o in items if f in o), "njac": sum(1 for _, o in items if "@" + f in o),
                 "len": len(db), "ne": obj.objective.n_calls, "nl": None, "dflt": 0,
                 "sett": 1 if obj.differentiation_step == 2e-7 else 0}
 
@@ -513,8 +567,8 @@ class ScenarioAdapter(PlainAdapter):
 
     def abstract(self, obj):
         st = obj.execution_statistics
-        return {"kind": "none", "nout": 0, "njac": 0, "len": None, "ne": st.n_executions, "nl": None, "dflt": 0,
-                "sett": None}
+        return {"kind": "none", "last": None, "nout": 0, "njac": 0, "len": None, "ne": st.n_executions, "nl": None,
+                "dflt": 0, "sett": None}
 
     def concrete(self, obj, with_cache=True):
         pb = obj.formulation.optimization_problem
@@ -548,9 +602,12 @@ class Replayer:
         self.file_mode = file_mode
         self.child = child
         self.steps = 0
+        self.hdf_last_seen = set()
         self.outside = {}
         self.probes = 0
         self.probe_result = None
+        self.probe_points = []
+        self.probe_seed = None
         self.pickles = {}
 
     def sig(self, **kw):
@@ -577,6 +634,7 @@ class Replayer:
             blob = pickle.dumps(obj)
             ans = self.child.roundtrip(blob, probe)
             self.probe_result = ans.get("probe")
+            self.probe_seed = ans.get("hash_seed")
             return pickle.loads(ans["blob"])
         raise ValueError(how)
 
@@ -650,6 +708,8 @@ class Replayer:
                             clause = "StaysAttached"   # file-backed cache: both worlds see the file
                         elif bad[0][0] in ("ne", "nl"):
                             clause = "CountersByValue"
+                        elif bad[0][0] == "last_entry":
+                            clause = "LastEntryByValue"
                         else:
                             clause = "NoSharing" if ww != w else "SameBehaviour"
                         if ww == w and self.twin_agrees(kind0, oplog[w], ("abs", ad.abstract(objs[w])), s):
@@ -753,7 +813,8 @@ class Replayer:
         return {"kind": c["kind"], "nout": len(ents["outs"]), "njac": len(ents["jacs"]),
                 "ne": st["ctr"][r["ctr"] - 1]["ne"], "nl": st["ctr"][r["ctr"] - 1]["nl"],
                 "dflt": st["gram"][r["gram"] - 1]["dflt"], "sett": st["sett"][r["sett"] - 1],
-                "has": st["data"][r["data"] - 1]["has"], "pt": tuple(st["data"][r["data"] - 1]["pt"])}
+                "has": st["data"][r["data"] - 1]["has"], "pt": tuple(st["data"][r["data"] - 1]["pt"]),
+                "last": (c["hasLast"], tuple(c["last"]))}
 
     def compare_abstract(self, obj, w, st):
         want = self.world_cells(st, w)
@@ -762,11 +823,28 @@ class Replayer:
                if got[k] is not None and got[k] != want[k]]
         if not bad and want["kind"] != "none" and got["len"] is not None and got["len"] != want["nout"]:
             bad.append(("len", got["len"], want["nout"]))
+        if not bad and got["last"] is not None and want["kind"] != "none" and got["last"] != want["last"]:
+            if want["kind"] == "hdf" and not HDF_LAST_ENTRY_IS_A_CLAUSE:
+                self.observe_hdf_last(w, got["last"], want["last"])
+            else:
+                bad.append(("last_entry", got["last"], want["last"]))
         if not bad and want["has"]:
             lp = self.ad.local_point(obj)
             if lp is not None and lp != want["pt"]:
                 bad.append(("local_data", lp, want["pt"]))
         return bad
+
+    def observe_hdf_last(self, w, got, want):
+        """HDF5Cache: a cache object (re)attached to a non-empty node - restoring does that - takes the NEWEST
+        entry as its last entry, whatever the original's was (HDF5Cache._read_hashes).  Same class of deviation
+        as for the memory cache, but how HDF5Cache is written today: reported as an observation until it is
+        recorded as a finding (set HDF_LAST_ENTRY_IS_A_CLAUSE)."""
+        key = (self.ad.e.name, w)
+        if key in self.hdf_last_seen:
+            return
+        self.hdf_last_seen.add(key)
+        self.ck.observe("LastEntryByValue(hdf)", self.sig(world=w, cache="hdf", what="last_entry"),
+                        {"last_entry_of_the_object": got, "specification": want})
 
     def do_pickle(self, objs, st, how, hist, stale):
         ck, ad = self.ck, self.ad
@@ -782,7 +860,17 @@ class Replayer:
         probe = None
         self.probe_result = None
         if how == "spawn" and kind != "hdf":
-            probe = {"entry": ad.e.name, "grammar": ad.gt, "x": 1}
+            d0 = st["gram"][0]["dflt"]
+            if ad.e.stateful:
+                pts = [(1, d0)]
+            else:
+                # the point of the specification's Execute(1) and one more, not both of which can be served by
+                # a single-entry cache that came along
+                pts = [(1, d0), (2, 1 - d0 if ad.e.pname is not None else d0)]
+            # the binding of the abstract inputs is transported, not recomputed in the other interpreter
+            probe = {"entry": ad.e.name, "grammar": ad.gt, "points": pts,
+                     "binding": {"xname": ad.e.xname, "pname": ad.e.pname, "xvals": ad.e.xvals, "pvals": ad.e.pvals}}
+            self.probe_points = pts
         try:
             copy = self.pickle_roundtrip(orig, how, probe)
         except Exception as ex:  # noqa: BLE001
@@ -796,15 +884,17 @@ class Replayer:
         stale["copy"] = False
         if self.probe_result is not None:
             # SameBehaviour for a = Execute(1), evaluated in the child: the label comes from the cells
-            cells = self.world_cells(st, "copy")
+            # SameBehaviour for a = Execute(x) (after SetDefault(v)), evaluated in the other interpreter: the
+            # labels <<(x, v), mem>> come from the cells of the state
             mem = tuple(tuple(m) for m in st["data"][st["ref"]["copy"]["data"] - 1]["mem"])
-            want = ad.reference(1, cells["dflt"], mem)
-            self.probes += 1
-            if not same(self.probe_result, want, ad.e.tol):
-                ck.violation("SameBehaviour", dict(base, what="value returned in the child process"),
-                             {"differs_at": diff_keys(self.probe_result, want, ad.e.tol), "got": self.probe_result,
-                              "expected": want})
-                return False
+            for (x, v), got in zip(self.probe_points, self.probe_result):
+                want = ad.reference(x, v, mem)
+                self.probes += 1
+                if not same(got, want, ad.e.tol):
+                    ck.violation("SameBehaviour", dict(base, what="value returned in another interpreter"),
+                                 {"point": [x, v], "hash_seed_of_the_interpreter": self.probe_seed,
+                                  "differs_at": diff_keys(got, want, ad.e.tol), "got": got, "expected": want})
+                    return False
         self.pickles[(kind, moment, how)] = self.pickles.get((kind, moment, how), 0) + 1
         if copy is orig or type(copy) is not type(orig):
             ck.violation("NoSharing", dict(base, what="not a new object of the same class"), {})
@@ -819,16 +909,23 @@ class Replayer:
                 ad.reattach(copy, 2)
         # SameState: the two worlds are equal right after Pickle (cells of the spec state say so)
         a, b = ad.concrete(orig), ad.concrete(copy)
+        if kind == "hdf" and not HDF_LAST_ENTRY_IS_A_CLAUSE:
+            la, lb = a["cache"].pop("last_entry", None), b["cache"].pop("last_entry", None)
+            if not same(la, lb):
+                self.observe_hdf_last("copy", lb and lb["in"], la and la["in"])
         if not same(a, b):
             d = diff_keys(a, b)
             what = d[0].split(".")[0] if d else "?"
             clause = "CountersByValue" if what == "ctr" else ("StaysAttached" if what == "cache" and kind == "hdf" else "SameBehaviour")
+            if d and d[0].startswith("cache.last_entry"):
+                clause, what = "LastEntryByValue", "last entry of the cache"
             ck.violation(clause, dict(base, what=f"{what} differs after restoring"), {"differs_at": d})
             return False
         for ww in ("orig", "copy"):
             bad = self.compare_abstract(objs[ww], ww, st)
             if bad:
-                clause = "CountersByValue" if bad[0][0] in ("ne", "nl") else "SameBehaviour"
+                clause = ("CountersByValue" if bad[0][0] in ("ne", "nl")
+                          else "LastEntryByValue" if bad[0][0] == "last_entry" else "SameBehaviour")
                 ck.violation(clause, dict(base, what=bad[0][0], of=ww),
                              {"mismatches": bad, "spec_state": self.world_cells(st, ww)})
                 return False
